@@ -46,7 +46,7 @@ fn main() {
                 }
                 // renumber slots densely (the allocator sizes its table by tape length)
                 let mut map = std::collections::HashMap::new();
-                let mut ren = |x: i64, map: &mut std::collections::HashMap<i64, i64>| -> i64 { if x < 0 { x } else { let n = map.len() as i64; *map.entry(x).or_insert(n) } };
+                let ren = |x: i64, map: &mut std::collections::HashMap<i64, i64>| -> i64 { if x < 0 { x } else { let n = map.len() as i64; *map.entry(x).or_insert(n) } };
                 for h in s2.iter_mut() {
                     if h.class == 0 { h.a = ren(h.a, &mut map); continue; }
                     h.out = ren(h.out, &mut map);
